@@ -293,6 +293,72 @@ def run(ck):
               nontrivial=lambda c: len(c[1]) >= 4,
               sig=lambda c, e, o: "loopback", sample=2, timeout=1500)
 
+    # ---- 5. several connections in the sniff phase at once (Listener.Serve classifies concurrently)
+    def conc_conn(first_only=False):
+        line = gen_first_line(rng) if rng.random() < 0.85 else gen_bad_line(rng)
+        data = (line + ("CSeq: %d\r\n\r\n" % rng.randrange(100) if rng.random() < 0.8 else "")).encode("latin-1")
+        if len(data) < 2:
+            data = b"GET / HTTP/1.0\r\n\r\n"
+        cuts = sorted(set(rng.randint(1, min(15, len(data) - 1)) for _ in range(rng.choice([1, 1, 1, 2, 3]))))
+        if rng.random() < 0.15:
+            cuts = []
+        frags, last = [], 0
+        for k in cuts + [len(data)]:
+            frags.append(data[last:k]); last = k
+        return data, frags
+
+    def interleave(nfr):
+        # each connection i appears once per fragment; patterns put complete lines of others between A's fragments
+        style = rng.random()
+        idx = list(range(len(nfr)))
+        if style < 0.5:
+            rng.shuffle(idx)
+            a = idx[0]
+            sched = [a]
+            for j in idx[1:]:
+                sched += [j] * nfr[j]
+            sched += [a] * (nfr[a] - 1)
+            return sched
+        if style < 0.75:                     # round robin: everybody's first fragment, then second, ...
+            sched = []
+            for r in range(max(nfr)):
+                sched += [j for j in idx if r < nfr[j]]
+            return sched
+        sched = [j for j in idx for _ in range(nfr[j])]
+        rng.shuffle(sched)
+        return sched
+
+    cases = []
+    for _ in range(4000 if T else 400):
+        k = rng.choice([2, 2, 3, 4])
+        conns, nfr = [], []
+        for _ in range(k):
+            data, frags = conc_conn()
+            conns.append([[[f, 0] for f in frags], gen_svc(rng, len(data), len(frags))])
+            nfr.append(len(frags))
+        cases.append([0, conns, interleave(nfr)])
+    ck.stream("concurrent", cases, "C19_conc_run", "C19_conc", "C19_conc_ok",
+              nontrivial=lambda c: len(c[1]) >= 2 and any(len(x[0]) >= 2 for x in c[1]),
+              sig=lambda c, e, o: "concurrent-sniff", sample=2, timeout=1500)
+
+    cases = []
+    for _ in range(60 if T else 8):
+        k = rng.choice([2, 3, 3, 4])
+        specs = []
+        for _ in range(k):
+            data, frags = conc_conn()
+            specs.append([data, len(frags[0]) if len(frags) > 1 else 0])
+        order = list(range(k))
+        rng.shuffle(order)
+        if rng.random() < 0.7:               # A: fragment; B (C): complete; A: rest
+            sched = [order[0]] + [j for j in order[1:] for _ in range(2)] + [order[0]]
+        else:
+            sched = order + order[::-1]
+        cases.append([specs, sched])
+    ck.stream("concurrent_loopback", cases, "C19_cloop_run", "C19_cloop", "C19_cloop_ok",
+              nontrivial=lambda c: sum(1 for x in c[0] if x[1] > 0) >= 1,
+              sig=lambda c, e, o: "concurrent-sniff-loopback", sample=1, timeout=1500)
+
     return ck.finish(
         rule="(1) random prefix tables (production RTSP/HTTP tables, small-alphabet tables with duplicates, empty strings and "
              "strings that are prefixes of one another) x inputs derived from the table (listed string + suffix, truncation, one byte "
@@ -305,7 +371,12 @@ def run(ck):
              "tables) on scripted conns, each first line under several segmentations; non-trivial = >= 2 segments and >= 8 bytes. "
              "(4) real loopback connections through listener.New/ServeAsync/Serve with stub services, client write splits with gaps, "
              "half-close or silence (sniff timeout 120 ms), payloads to 150 KB (1 MiB thorough); plus well-formed RTSP/HTTP requests and "
-             "non-protocol openings through the production service.listen (tcp.Server / http.Server behind it).",
+             "non-protocol openings through the production service.listen (tcp.Server / http.Server behind it). "
+             "(5) 2-4 connections in the sniff phase at once: request lines split at 1-3 positions inside the first 16 bytes, fragments of the "
+             "connections released in a deterministic interleaving (A's first fragment, complete lines of the others, A's rest; round robin; random) "
+             "to goroutines running Listener.serve on gated scripted conns over one shared listener (no sleeps: the harness waits until the connection "
+             "blocks for more), and the same over real TCP through listener.New/Serve; every connection must reach the service classify predicts for "
+             "its own bytes and deliver its own bytes; non-trivial = >= 2 connections, one of them split.",
         trusted=["the scripted net.Conn of the harness implements the read-script semantics of Model/C19Sniffer.v (src_read)",
                  "scripted-conn and stub-service streams register rtsp.MatchRTSP() then listener.MatchHTTP() like service.listen; service.listen itself is exercised by the loopback cases with timeout -1 (hook service.VerifListen)",
                  "bytes.Buffer Write/Bytes/Len/Cap, io.ReadFull and copy are modelled from their documentation",
